@@ -1,5 +1,5 @@
 import sys, itertools, random, collections
-sys.path.insert(0,'/repo/src')
+import os; sys.path.insert(0,os.environ.get('PACTI_SRC','/repo/src'))
 import warnings; warnings.filterwarnings('ignore')
 from pacti.iocontract import IoContract, Term, TermList, Var
 from pacti.utils.errors import IncompatibleArgsError
